@@ -23,9 +23,9 @@ import (
 // ------------------------------------------------------------------ grammar
 
 var (
-	sidUniverse  = []string{"s1", "s2", "os1", "es1", "nosuch"}
-	seqUniverse  = []string{"0", "1", "2", "65535", "65536", "-1", "x"}
-	b64Universe  = []string{"aGVsbG8=", "aGVsbG8gd29ybGQ=", "", "AAAA", "!!!!", "aGVsbG8", "QQ==", strings.Repeat("QUFB", 700),
+	sidUniverse = []string{"s1", "s2", "os1", "es1", "nosuch"}
+	seqUniverse = []string{"0", "1", "2", "65535", "65536", "-1", "x"}
+	b64Universe = []string{"aGVsbG8=", "aGVsbG8gd29ybGQ=", "", "AAAA", "!!!!", "aGVsbG8", "QQ==", strings.Repeat("QUFB", 700),
 		"====", "=", "A===", "==QQ", "QUJDQUJD========", "QQ======", "QUJD=", " QUJD ", "QUJD\nQUJD"}
 	fromUniverse = []string{peerFull, "juliet@example.com", remoteAddr, roomMe, roomBare, roomBare + "/other", localAddr, localAddr + "/res", ""}
 	msgTypes     = []string{"", "normal", "chat", "chat", "normal", "groupchat", "headline", "error"}
